@@ -29,6 +29,10 @@ type Case struct {
 	Layout int      `json:"layout"`
 	Rings  [][]pt   `json:"rings,omitempty"`
 	Polys  [][][]pt `json:"polys,omitempty"`
+	// Exp: every x and y is multiplied by 2^Exp before it is handed to the library and
+	// every centroid divided by 2^Exp (a signed area by 4^Exp) before it is compared;
+	// both are exact while cubes of the coordinates stay finite and normal.
+	Exp int `json:"exp,omitempty"`
 }
 
 var layouts = []geom.Layout{geom.XY, geom.XYZ, geom.XYM, geom.XYZM, geom.Layout(5)}
@@ -233,14 +237,23 @@ func genCase(t *rapid.T) Case {
 			c.Class = "multi"
 		}
 	}
+	if rapid.IntRange(0, 4).Draw(t, "scaled") == 0 {
+		c.Exp = rapid.SampledFrom([]int{280, -280, 140, -140, 40, -40}).Draw(t, "exp")
+		if rapid.Bool().Draw(t, "expany") {
+			c.Exp = rapid.IntRange(-280, 280).Draw(t, "expv")
+		}
+	}
 	return c
 }
+
+// curExp is Case.Exp of the case being evaluated (one case at a time per process).
+var curExp int
 
 func flatOf(ps []pt, l geom.Layout) []float64 {
 	s := l.Stride()
 	out := make([]float64, 0, len(ps)*s)
 	for i, p := range ps {
-		out = append(out, float64(p[0]), float64(p[1]))
+		out = append(out, math.Ldexp(float64(p[0]), curExp), math.Ldexp(float64(p[1]), curExp))
 		for d := 2; d < s; d++ {
 			out = append(out, float64(i*3+d)*1e7)
 		}
@@ -257,6 +270,10 @@ func rabs(r *big.Rat) *big.Rat { return new(big.Rat).Abs(r) }
 func within(what string, got geom.Coord, wx, wy *big.Rat, tx, ty *big.Rat, stride int) error {
 	if len(got) != stride && !(stride > 2 && len(got) == 2) {
 		return fmt.Errorf("%s: centroid has %d ordinates (layout stride %d)", what, len(got), stride)
+	}
+	if curExp != 0 {
+		what = fmt.Sprintf("%s [all x,y times 2^%d, result divided by it]", what, curExp)
+		got = geom.Coord{math.Ldexp(got[0], -curExp), math.Ldexp(got[1], -curExp)}
 	}
 	for i, w := range []*big.Rat{wx, wy} {
 		tol := []*big.Rat{tx, ty}[i]
@@ -568,7 +585,7 @@ func propRings(c Case, l geom.Layout) error {
 				return fmt.Errorf("IsRingCounterClockwise(%v) = %v, exact signed area %v", r, got, exact.Float(a2)/2)
 			}
 			want := exact.Quo(exact.Neg(a2), big.NewRat(2, 1))
-			got := xy.SignedArea(l, flat)
+			got := math.Ldexp(xy.SignedArea(l, flat), -2*curExp)
 			// every intermediate of the shoelace sum relative to the first x is exact on these inputs
 			terms := new(big.Rat)
 			for i := 1; i+1 < len(r); i++ {
@@ -585,6 +602,8 @@ func propRings(c Case, l geom.Layout) error {
 
 func prop(c Case) error {
 	l := geom.Layout(c.Layout)
+	curExp = c.Exp
+	defer func() { curExp = 0 }()
 	switch c.Mode {
 	case "points":
 		return propPoints(c, l)
